@@ -694,25 +694,23 @@ def run(ctx):
     ctx.extra['boundary_versions'] = bvs
     # (a)
     ctx.pmap(w_family_a, _permute([(c, seed) for c in _chunks(sup, 4)], seed))
-    # (b), (b2)
+    # (b), (b2), (b3)
     maxlen = 4 if ctx.thorough else 3
     tasks = []
     for v in bvs:
         long_layout = idx[v] >= idx[KEEPALIVE_LONG_FROM]
-        for extended, ml in (('b', maxlen), ('b2', 2), ('b3', maxlen + 1)):
-            na = len(alphabet(long_layout, seed, extended))
-            tasks.append((v, None, ml, extended, seed, 0))
+        for which, ml in (('b', maxlen), ('b2', 2), ('b3', maxlen + 1)):
+            na = len(alphabet(long_layout, seed, which))
+            tasks.append((v, None, ml, which, seed, 0))
             per = sum(na ** k for k in range(0, ml - 1))
-            plen = 2 if ml >= 2 else 0
-            if plen:
-                if ml - plen >= 2 and na > 8:   # deep: task per 2-prefix
-                    for i in range(na):
-                        for j in range(na):
-                            tasks.append((v, (i, j), ml, extended, seed,
-                                          (i * na + j) * per))
-                else:                   # shallow: one task per first symbol
-                    for i in range(na):
-                        tasks.append((v, (i,), ml, extended, seed, i))
+            if ml >= 4 and na > 8:      # deep: one task per two-symbol prefix
+                for i in range(na):
+                    for j in range(na):
+                        tasks.append((v, (i, j), ml, which, seed,
+                                      (i * na + j) * per))
+            else:                       # shallow: one task per first symbol
+                for i in range(na):
+                    tasks.append((v, (i,), ml, which, seed, i * per))
     # a task with a one-symbol prefix enumerates [e] itself again: avoid the
     # duplicate by letting the None-task cover only the empty history there
     ctx.pmap(w_family_b, _permute(_dedupe_b(tasks), seed))
